@@ -1144,6 +1144,9 @@ func tupleRepeat(elems Tuple, n Int) (Tuple, error) {
 	}
 	i, err := AsInt32(n)
 	if err != nil {
+		if n.Sign() < 0 {
+			return nil, nil // negative counts behave like zero
+		}
 		return nil, fmt.Errorf("repeat count %s too large", n)
 	}
 	if i < 1 {
@@ -1176,6 +1179,9 @@ func stringRepeat(s String, n Int) (String, error) {
 	}
 	i, err := AsInt32(n)
 	if err != nil {
+		if n.Sign() < 0 {
+			return "", nil // negative counts behave like zero
+		}
 		return "", fmt.Errorf("repeat count %s too large", n)
 	}
 	if i < 1 {
